@@ -160,12 +160,14 @@ def hier_element_cases(ctx, n):
         t = ' '.join(ctx.rng.choice(HE_WORDS[:-3] + ['words', 'follow']) for _ in range(ctx.rng.randint(1, 7)))
         if h.startswith('-') or t[0].isupper() and t.split(' ')[0] in ('P', 'P1'):
             h = 'a ' + h
-        out.append((ctx.rng.choice(stages.URIS), ctx.rng.choice(stages.PREFIXES), kw, ctx.rng.choice(HE_NUMS), h, t, ctx.rng.randint(1, 6)))
+        # (the last component: blank lines between the keyword line and its content - C04_hier_element_converts_blank_lines)
+        out.append((ctx.rng.choice(stages.URIS), ctx.rng.choice(stages.PREFIXES), kw, ctx.rng.choice(HE_NUMS), h, t, ctx.rng.randint(1, 6), ctx.rng.choice([0, 0, 1, 1, 2, 5])))
     return out
 
 def _he_oracle(args):
-    uri, prefix, kw, n, h, t, k = args
-    text = '%s %s - %s\n%s%s\n' % (kw, n, h, ' ' * k, t)
+    uri, prefix, kw, n, h, t, k = args[:7]
+    b = args[7] if len(args) > 7 else 0
+    text = '%s %s - %s\n%s%s%s\n' % (kw, n, h, '\n' * b, ' ' * k, t)
     tag = absdoc.HIER[kw]
     G = eidlib.tables()
     cand = (prefix + '__' if prefix else '') + G.aliases.get(tag, tag) + '_' + eidlib.clean_num_ref(n)
@@ -235,7 +237,7 @@ LEVEL_TEXT = ('Partial. Proved, on the tables regenerated from README.md, akn.pe
               'without blank or backslash, every heading and content line of plain or escaped characters, in any context, rule hier_element of the regenerated grammar and to_dict '
               'give the hier node with the keyword\'s element, that num, that heading and one paragraph (C04_hier_element_yields_hier_node); and through the WHOLE pipeline model - '
               'pre_parse, grammar, to_dict, XML builder, post-processing, eIds - `KEYWORD num - heading` + an indented plain line converts, for every known URI and every prefix, to '
-              '<tag eId=prefix__abbr_num><num/><heading/><content><p eId=...__p_1/></content></tag> (C04_hier_element_converts; instances run on the implementation on every run); and indentation nesting becomes element nesting to ANY depth: a chain of hierarchical elements nested in one another around a plain line is read by hier_element as one nest and to_dict gives the hier nodes nested in the same way, by induction over the depth (C04_hier_chain_yields_nested_nodes), and through the WHOLE pipeline model such a nest - any depth, any indentation widths, every known URI and prefix - converts to the elements nested in the same way with every eId the parent\'s eId + __abbr_num (C04_hier_chain_converts; nests of up to 20 levels run through the whole implementation on every run). '
+              '<tag eId=prefix__abbr_num><num/><heading/><content><p eId=...__p_1/></content></tag> (C04_hier_element_converts; with any number of blank lines between the keyword line and its content: C04_hier_element_converts_blank_lines; instances run on the implementation on every run); and indentation nesting becomes element nesting to ANY depth: a chain of hierarchical elements nested in one another around a plain line is read by hier_element as one nest and to_dict gives the hier nodes nested in the same way, by induction over the depth (C04_hier_chain_yields_nested_nodes), and through the WHOLE pipeline model such a nest - any depth, any indentation widths, every known URI and prefix - converts to the elements nested in the same way with every eId the parent\'s eId + __abbr_num (C04_hier_chain_converts; nests of up to 20 levels run through the whole implementation on every run). '
               'For all other shapes the whole-document statement (text -> prescribed tree) is decided by the '
               'independent specification generator absdoc.py on sampled abstract documents x seven roots, plus every keyword exhaustively, on the '
               'implementation; the model is tied to the code on the same documents by the e2e and dict stages.')
